@@ -8,7 +8,7 @@ Line-protocol driver for the serializer model (C06).
   prop   <lv> PREFS PROPERTY                     -> OK <text>         doProperty
   decl   <lv> <omit> PREFS DITEMS                -> OK <text> | ERR e doDecl
   rule   <lv> <sl> PREFS RULE                    -> OK <text> | ERR e doRule
-  sheet  <sl> PREFS SHEET                        -> OK <text> | ERR e doSheet
+  sheet  <sl> PREFS SHEET                        -> OK <text> | ERR e doSheet (sl: state left in the serializer; not read)
 
 PREFS = the 25 fields in the order of `Preferences.useDefaults` (bool 0/1, string hex, importHrefFormat hex or `~`).
 Trees are prefix-coded; lists are preceded by their length; `~` is Python `None`.
